@@ -517,6 +517,14 @@ def rule_rec_guard(ctx):
                     if node_terms and all(t_[0] == 'param' for t_ in node_terms):
                         obs.append(ok('REC-GUARD', inst, 'delegates its own node argument unchanged to a helper of the same traversal (no descent on this edge)', loc))
                         continue
+                    DESCENT = ('selection_set', 'StoredInputType.fields', 'Schema.stored_inputs', 'StoredInputFieldType.id', 'StoredInputType.')
+                    own_params = all(o[0] == 'param' for t_ in node_terms for o, _ in TM.paths(t_) if o[0] in ('param', 'field') and not (o[0] == 'field' and o[1] in (
+                        'Query.selections', 'BoundQuery.query', 'BoundQuery.schema', 'Query.fragments', 'SelectionId.0', 'Schema.stored_inputs_by_id')))
+                    has_param = any(s_[0] == 'param' and s_[1] == fn.key for t_ in node_terms for s_ in P.subterms(t_))
+                    if node_terms and has_param and not any(any(d_ in f_ for d_ in DESCENT) for f_ in fields):
+                        # e.g. `for id in ids_param { query.get_selection(id).recurse() }`: resolves ids it was given, no descent
+                        obs.append(ok('REC-GUARD', inst, 'forwards the nodes it was handed (ids resolved to nodes, no descent on this edge): the callers\' edges carry the obligation', loc))
+                        continue
                     if 'ResolvedFragment.selection_set' in fields:
                         kind = 'follows a fragment spread (fragment pool, can be cyclic)'
                     elif 'Schema.stored_inputs' in fields or any(f.startswith('StoredInputType.') for f in fields):
